@@ -307,7 +307,7 @@ func genValid(r *core.Rand, sc *Scenario, method string, track int) Step {
 
 func genPerturb(r *core.Rand, sc *Scenario, method string, track int) Step {
 	st := Step{Method: method, Track: track, Cred: "perturb", AlgForm: "quoted"}
-	kinds := []string{"user", "pass", "realm", "nonce", "method", "algorithm", "uri"}
+	kinds := []string{"user", "pass", "realm", "nonce", "method", "algorithm", "uri", "uri", "response"}
 	if len(sc.Methods) < 3 {
 		kinds = append(kinds, "scheme", "scheme")
 	}
